@@ -186,7 +186,7 @@ OTick(node) ==
 (* ---- an update_add_htlc leaves `node` (a retransmission repeats the key).                                          *)
 (* OnePaymentPerId: an HTLC that is not a forward belongs to an id of this node, for which an invoice with that hash   *)
 (* was handed to the node (and, if the user handles invoices, which the user asked to pay); the invoice answers the   *)
-(* accepted call (its offer, its amount); all HTLCs of an id carry one hash; what is committed to the id at any time  *)
+(* accepted call (a call of this id that was accepted, its offer, its amount); all HTLCs of an id carry one hash; what is committed to the id at any time  *)
 (* never exceeds one payment of the invoice's amount (plus the fee limit): a second / duplicate / replayed invoice    *)
 (* adds nothing.  An id that reported its outcome, was abandoned before anything left, or that a restarted node no    *)
 (* longer lists gets no HTLC.                                                                                         *)
@@ -203,6 +203,8 @@ OAdd(node, chan, id, hash, amt) ==
              /\ hash \in pay[p].invs
              /\ pay[p].manual => hash \in pay[p].called
              /\ pay[p].hash \in {0, hash}
+             \* ... an ACCEPTED call: a refused call has no effect, whatever offer it named
+             /\ invInfo[hash].c \in DOMAIN call /\ call[invInfo[hash].c].res = "ok"
              /\ invInfo[hash].off = pay[p].off /\ invInfo[hash].amt = pay[p].amt
              /\ LiveAmt(p) + amt <= Cap(invInfo[hash].amt)
              /\ ht' = Put(ht, k, [hash |-> hash, pid |-> p, gen |-> pay[p].gen, st |-> "flight", amt |-> amt])
